@@ -183,7 +183,20 @@ class Result:
 
 
 # ----------------------------------------------------------------------------- pool
+def _die_with_parent(ppid):
+    import threading
+
+    def watch():
+        while True:
+            time.sleep(2.0)
+            if os.getppid() != ppid:
+                os._exit(1)
+
+    threading.Thread(target=watch, daemon=True).start()
+
+
 def _worker_init():
+    _die_with_parent(os.getppid())  # a killed check must not leave spinning workers behind
     os.environ.setdefault("JAX_ENABLE_X64", "1")
     os.environ.setdefault("JAX_PLATFORMS", "cpu")
     # XLA sizes its intra-op thread pools from the schedulable CPUs when the backend is created, and
